@@ -72,9 +72,9 @@ impl GenCfg {
     }
 }
 
-pub const FAMILIES: [&str; 16] = [
+pub const FAMILIES: [&str; 17] = [
     "accum", "munch", "lang", "rulesets", "rctx", "eoi", "loc", "actions", "recover", "progress", "realistic",
-    "class", "prec", "bigclass", "mixed", "eoictx",
+    "class", "prec", "bigclass", "mixed", "eoictx", "mixedx",
 ];
 
 pub fn family_cfg(family: &str, rng: &mut Rng) -> GenCfg {
@@ -231,6 +231,39 @@ pub fn family_cfg(family: &str, rng: &mut Rng) -> GenCfg {
                 "ascii_hexdigit",
             ];
             c.p_ctx = 40;
+        }
+        "mixedx" => {
+            // "mixed" over a hostile alphabet (LF, TAB, 2-4 byte, double-width and zero-width
+            // characters) and with classes that compile to binary-search tables: every feature the
+            // dedicated families isolate, in one definition. Used as a small extra part by most checks
+            // so that a change which needs a *combination* (tables + clone, wide characters +
+            // iterator input, contexts + rule sets + `$`) meets it somewhere.
+            let pool = ['b', '\n', '\t', 'é', 'あ', '\u{301}', '😀', 'c'];
+            let mut ls = vec!['a'];
+            let n = rng.range(3, 4);
+            while ls.len() < 1 + n {
+                let c = pool[rng.below(pool.len())];
+                if !ls.contains(&c) {
+                    ls.push(c);
+                }
+            }
+            c.letters = ls;
+            c.n_sets = (1, 3);
+            c.rules = (1, 5);
+            c.depth = 3;
+            c.w_atom = [10, 4, 5, 2, 4, 0];
+            // exact tables only (the Unicode-dependent ones are stale: C13's known finding must not
+            // leak into other checks); `whitespace` has 10 ranges and forces the search-table path
+            c.builtins = vec!["whitespace", "whitespace", "control", "ascii_punctuation", "ascii_digit", "ascii_hexdigit"];
+            c.p_ctx = 25;
+            c.p_eoi_rule = 8;
+            c.p_eoi_ctx = 10;
+            c.w_act = [1, 2, 6, 2];
+            c.p_switch = 25;
+            c.p_err = 15;
+            c.p_continue = 20;
+            c.p_reset = 20;
+            c.p_unnamed = 30;
         }
         "mixed" | _ => {
             c.letters = vec!['a', 'b', 'c', 'd'];
